@@ -375,6 +375,7 @@ func TestWorker(t *testing.T) {
 	stride := envInt("VERIF_STRIDE", 1)
 	for run := from; run < to && time.Since(start) < budget; run += stride {
 		what.Store(fmt.Sprintf("%s seed=%d run=%d", prop, seed, run))
+		atomic.AddInt64(&heartbeat, 1)
 		if cur := os.Getenv("VERIF_CUR"); cur != "" {
 			os.WriteFile(cur, []byte(fmt.Sprintf("{\"property\":%q,\"seed\":%d,\"run\":%d,\"regen\":true}", prop, seed, run)), 0o644)
 		}
